@@ -4,6 +4,8 @@ package gossiptopic
 
 // Contracts for the deductive checks in /verif (comment-only; no code).
 
+//@ nonnil log
+
 // A nil error comes with a topic handle and the function that shuts pubsub
 // down; on an error the pubsub context created on the way is cancelled and
 // nothing is returned (used by announce.NewReceiver: C16).
